@@ -103,15 +103,15 @@ def ev? (s : String) : Option Ev :=
     else none
   | _ => none
 
-def renderCoord (tag : String) (c : Coord) : List Ev → List String
+def renderCoord (pol : FlushPolicy) (tag : String) (c : Coord) : List Ev → List String
   | [] => []
   | e :: rest =>
     let (c', rs) := match e with
-      | .report r now => coordOnCommitted c r now
+      | .report r now => coordOnCommitted c r now pol
       | .flush now => coordFlush c now
     let line := s!"#{tag} {c'.frontier.seq} {c'.frontier.offset} p={intsStr (((c'.pending.map (fun r => (r.seq, (0 : Int)))) |> idxSort).map (·.1))} a={intsStr (c'.advanced.map (·.seq))}"
       ++ String.join (rs.map (fun r => " | " ++ reqStr r))
-    line :: renderCoord tag c' rest
+    line :: renderCoord pol tag c' rest
 
 def handle : List String → Option (List String)
   | ["c14r", tag, ver, snap, recs] =>
@@ -145,16 +145,19 @@ def handle : List String → Option (List String)
         | some x => s!"{x.seq}:{x.endOff}:{x.mtime}:{Hex.encode x.runId}:{x.slot}"
       pure [s!"#{tag} best={bs} n={n}"]
     some (r.getD [s!"#{tag} bad-op"])
-  | ["c14c", tag, ver, rid, seq, off, t0, evs] =>
+  | ["c14c", tag, ver, rid, seq, off, t0, thr, ivl, evs] =>
     let r : Option (List String) := do
+      let thr ← thr.toNat?
+      let ivl ← ivl.toInt?
       let ver ← Hex.decode ver
       let rid ← Hex.decode rid
       let seq ← seq.toInt?
       let off ← off.toInt?
       let t0 ← t0.toInt?
       let evs ← list? ev? evs
-      pure (renderCoord tag { frontier := { runId := rid, seq := seq, offset := off, mtime := t0, version := ver },
-                              lastFlush := t0 } evs)
+      let pol : FlushPolicy := { units := thr, intervalNs := ivl }
+      let c0 : Coord := { frontier := { runId := rid, seq := seq, offset := off, mtime := t0, version := ver }, lastFlush := t0 }
+      pure (renderCoord pol tag c0 evs)
     some (r.getD [s!"#{tag} bad-op"])
   | _ => none
 
